@@ -1,3 +1,4 @@
+mod abi;
 mod common;
 mod engine;
 mod harness;
@@ -22,7 +23,28 @@ struct Plan {
     thorough: u64,
 }
 
+fn selftest() -> i32 {
+    match (abi::selftest("/repo"), oracle::selftest("/repo")) {
+        (Ok(a), Ok(b)) => {
+            println!("selftest: independent recipes agree with {} golden vectors of the repository", a + b);
+            0
+        }
+        (a, b) => {
+            if let Err(e) = a {
+                eprintln!("harness error: {}", e);
+            }
+            if let Err(e) = b {
+                eprintln!("harness error: {}", e);
+            }
+            2
+        }
+    }
+}
+
 fn check(prop: &'static str, tier: &str, runs_override: Option<u64>) -> i32 {
+    if selftest() != 0 {
+        return 2;
+    }
     let seed: u64 = std::env::var("VERIF_SEED").ok().and_then(|s| s.parse().ok()).unwrap_or(1);
     let known = Known::load();
     let thorough = tier == "thorough";
@@ -34,6 +56,15 @@ fn check(prop: &'static str, tier: &str, runs_override: Option<u64>) -> i32 {
     match prop {
         "C01" | "C02" | "C03" | "C08" | "C09" | "C13" | "C16" => {
             run::<worlds::g::WorldG>(&mut agg, prop, n(Plan { quick: 3000, thorough: 200_000 }), thorough, &known, cap);
+            rule = RULE;
+        }
+        "C10" => {
+            run::<worlds::c::WorldC>(&mut agg, prop, n(Plan { quick: 2500, thorough: 500_000 }), thorough, &known, cap / 2);
+            run::<worlds::i::WorldI>(&mut agg, prop, runs_override.unwrap_or(if thorough { 50_000 } else { 500 }), thorough, &known, cap / 2);
+            rule = "world C: one evaluation = one run of 40 codec cases (generated message, mutated encoding or random bytes) through the repository's encoder/decoder against the independent encoder; world I: one simulated run with corrupted payloads approved and delivered in situ; distinct_nontrivial = distinct (case hash | model state hash, kind) pairs judged";
+        }
+        "C04" | "C05" | "C11" | "C18" => {
+            run::<worlds::i::WorldI>(&mut agg, prop, n(Plan { quick: 1500, thorough: 100_000 }), thorough, &known, cap);
             rule = RULE;
         }
         "C14" => {
@@ -91,6 +122,8 @@ fn replay(path: &str) -> i32 {
         "G" => engine::replay::<worlds::g::WorldG>(&rf, &known),
         "T" => engine::replay::<worlds::t::WorldT>(&rf, &known),
         "S" => engine::replay::<worlds::s::WorldS>(&rf, &known),
+        "I" => engine::replay::<worlds::i::WorldI>(&rf, &known),
+        "C" => engine::replay::<worlds::c::WorldC>(&rf, &known),
         "O" => engine::replay::<worlds::o::WorldO>(&rf, &known),
         w => {
             eprintln!("harness error: unknown world {}", w);
@@ -136,6 +169,7 @@ fn main() {
             }
             check(prop, &tier, runs)
         }
+        "selftest" => selftest(),
         "replay" => {
             if args.len() < 3 {
                 usage();
